@@ -76,6 +76,7 @@ void mc_sample(const char *s);        /* keeps the first few and the latest */
 void mc_sample_current(void);         /* sample = describe() of the current case */
 void mc_violation(const char *sig, const char *fmt, ...) __attribute__((format(printf, 2, 3)));
 long mc_violations(void);
+void mc_restart_worker(void);
 int mc_deadline(void);                /* 1 when the global deadline has passed */
 void mc_not_exhaustive(const char *why);
 void mc_note(const char *fmt, ...) __attribute__((format(printf, 1, 2)));
